@@ -90,9 +90,17 @@ PROPS["C03"] = {
     "chunk": 1500,
 }
 
+# the life-cycle machine explored on its own: every schedule of API calls within the bound, each
+# transition of the abstract state graph replayed call by call (runner `sched`)
+LIFE = lambda tier, sws_q, sws_t: {
+    "module": "MC_Life",
+    "constants": {"MaxObj": q(tier, 2, 3), "MaxSteps": q(tier, 4, 5), "SwIdx": q(tier, sws_q, sws_t), "CaseIdx": "{1, 2, 3, 4}"},
+    "invariants": ["EmitDefs", "DenSound", "ValidateLaw", "ReloadPlain", "OnceOnly", "SwBlind", "Bounded"],
+    "props": ["Pure"], "view": "View", "forms": ["life"], "workers": 8}
+
 PROPS["C12"] = {
     "title": "Loading, optimising and matching are deterministic and pure",
-    "models": lambda tier: [],
+    "models": lambda tier: [LIFE(tier, "{1, 2}", "{1, 2, 3}")],
     "second_process": "reverse",
     "gens": lambda tier: [{"topic": "pure", "n": q(tier, 400, 8000)}, {"topic": "bigq", "n": q(tier, 8, 60)},
                           {"topic": "bigp", "n": q(tier, 3, 6)}],
@@ -102,7 +110,7 @@ PROPS["C12"] = {
 
 PROPS["C13"] = {
     "title": "validate() agrees with matches() on the rule's own examples",
-    "models": lambda tier: [],
+    "models": lambda tier: [LIFE(tier, "{1, 4}", "{1, 2, 4}")],
     "gens": lambda tier: [{"topic": "val", "n": q(tier, 800, 15000)}],
     "rules": ["validate", "validate_panic", "validate_unbound"],
     "chunk": 500,
@@ -110,7 +118,7 @@ PROPS["C13"] = {
 
 PROPS["C14"] = {
     "title": "Rule serialisation round-trips",
-    "models": lambda tier: [],
+    "models": lambda tier: [LIFE(tier, "{1, 3}", "{1, 3, 5}")],
     "gens": lambda tier: [{"topic": "ser", "n": q(tier, 600, 12000)}],
     "rules": ["den", "ser_panic", "ser_error", "reload_fails", "reload_differs", "load_paths_differ", "load_panic", "match_panic"],
     "chunk": 400,
